@@ -299,7 +299,11 @@ class Check:
         if key in self.known:
             self.known_hits[key] = self.known_hits.get(key, 0) + 1
             return False
-        if len(self.violations) < 50:
+        # keep at most 3 witnesses per distinct key (and at most 300 keys): one noisy
+        # defect must not crowd out the others
+        per_key = self.counters.get("violations:" + key, 0)
+        self.counters["violations:" + key] = per_key + 1
+        if per_key < 3 and len(self.violations) < 900:
             self.violations.append((key, witness))
         else:
             self.count("violations_not_recorded")
